@@ -8,6 +8,8 @@ THEOREMS = ['C03_total', 'C03_final', 'C03_init', 'C03_wf', 'C03_circuit_settles
 THEOREMS += ['C03_kernel_source_is_model', 'C03_kernel_source_any_bound', 'C03_kernel_source_example', 'C03_kernel_source_cap1_differs', 'C03_source_total', 'C03_source_settles']   # source tie of the merge kernel (Gen/WaveEvalSrc.v)
 
 
+THEOREMS += ['C03_driver_eval_is_model', 'C03_driver_c_prop_is_fold', 'C03_driver_assign_is_model']   # driver code from the source text (Gen/WaveDriversSrc.v)
+
 def oracle(k, w):
     for lane in range(k.sims):
         m = wo.check_settles(w, k.c, k.s0, k.s2, k.extra, lane, all_lines=not k.reuse)
@@ -18,6 +20,7 @@ def oracle(k, w):
 
 def run(ck):
     wk.regen_kernel(ck)
+    wk.regen_drivers(ck)
     if THEOREMS:
         ck.prove('C03', THEOREMS)
     fails, mism = wk.campaign(ck, ck.scale(72, 1500), oracle, gen_kw={'strip_prob': 0.3}, coq_lanes=1, stress_every=2, line_level=True, glue=True)
